@@ -2,7 +2,7 @@
 EXTENDS Chain, Json
 CONSTANTS NV, NI
 VARIABLE c
-Init == c \in ValidCases(NV) \cup InvalidCases(NI)
+Init == c \in ValidCases(NV) \cup InvalidCases(NI) \cup ShapeCases
 Next == UNCHANGED c
 Emit == PrintT("CASE " \o ToJson(c))
 =============================================================================
